@@ -71,8 +71,11 @@ enum Pat {
     /// N tasks, each with two timers for the same deadline (1 s), both polled while pending;
     /// the one registered first is dropped at once, the task awaits the other
     TwinTimersFirstDropped,
+    /// N intervals whose first (immediate) tick is awaited by one task and whose 1 s tick is
+    /// awaited by another task the interval was moved into
+    IntervalMovedToAnotherTask,
 }
-const PATS: [Pat; 25] = [
+const PATS: [Pat; 26] = [
     Pat::Sleepers,
     Pat::Chain,
     Pat::NotifyAll,
@@ -98,6 +101,7 @@ const PATS: [Pat; 25] = [
     Pat::SleepResetToLater,
     Pat::RestartAfterPendingTimer,
     Pat::TwinTimersFirstDropped,
+    Pat::IntervalMovedToAnotherTask,
 ];
 
 #[derive(Clone, Copy, Debug, PartialEq, Eq)]
@@ -226,6 +230,19 @@ impl Module for Mo {
                             l.lock().unwrap().push((i as u32, now()));
                         });
                     }
+                }
+            }
+            Pat::IntervalMovedToAnotherTask => {
+                for i in 0..n {
+                    let l = self.log.clone();
+                    spawn_kind(k, async move {
+                        let mut iv = des::time::interval(Duration::from_secs(1));
+                        iv.tick().await;
+                        spawn_kind(k, async move {
+                            iv.tick().await;
+                            l.lock().unwrap().push((i as u32, now()));
+                        });
+                    });
                 }
             }
             Pat::TwinTimersFirstDropped => {
@@ -516,7 +533,7 @@ fn polls_needed(c: &Case) -> usize {
         Pat::Drain => 1,
         Pat::Yield => 1 + c.n,
         Pat::JoinAll | Pat::TimerThenNotify | Pat::ElementEndHookOnTimer => c.n + 1,
-        Pat::SleepBehindCancelledTimer => 3 * c.n,
+        Pat::SleepBehindCancelledTimer | Pat::IntervalMovedToAnotherTask => 3 * c.n,
         _ => c.n,
     }
 }
@@ -664,7 +681,7 @@ impl Property for C06 {
                         Pat::NotifyThenShutdown | Pat::NotifyThenRestart | Pat::SleepersThenShutdown | Pat::StartThenShutdown => ctx.hit("shutdown_requested_in_the_event"),
                         Pat::StartStage => ctx.hit("start_stage_trigger"),
                         Pat::Sleepers => ctx.hit("timer_trigger"),
-                        Pat::SleepBehindCancelledTimer | Pat::SleepResetToLater | Pat::TwinTimersFirstDropped => ctx.hit("timer_behind_cancelled_timer"),
+                        Pat::SleepBehindCancelledTimer | Pat::SleepResetToLater | Pat::TwinTimersFirstDropped | Pat::IntervalMovedToAnotherTask => ctx.hit("timer_behind_cancelled_timer"),
                         Pat::NotifyAll => ctx.hit("message_trigger"),
                         Pat::ElementConsumes | Pat::ElementStartHook | Pat::ElementEndHook | Pat::ElementEndHookOnTimer | Pat::ElementEndHookOnStart => ctx.hit("processing_element_trigger"),
                         _ => {}
